@@ -393,13 +393,13 @@ func (c *compiler) compile(tok *token) []instruction {
 			const indexItem, indexKey = 0, 1
 			item := c.Locals.Index(tok.Pos.String() + "#item")
 			res = append(res, c.compile(arg.Tokens[indexItem])...)
-			res = append(res, instruction{Code: codeLocalSet, A: reg(item)})
+			res = append(res, instruction{Code: codeLocalSet, A: reg(item), B: 1})
 			target := []instruction{{Code: codeLocalGet, A: reg(item)}}
 			get, set := instruction{Code: codeGet, Pos: c.posOf(arg)}, instruction{Code: codeSet, Pos: c.posOf(arg)}
 			if arg.Symbol == "index" {
 				key := c.Locals.Index(tok.Pos.String() + "#key")
 				res = append(res, c.compile(arg.Tokens[indexKey])...)
-				res = append(res, instruction{Code: codeLocalSet, A: reg(key)})
+				res = append(res, instruction{Code: codeLocalSet, A: reg(key), B: 1})
 				target = append(target, instruction{Code: codeLocalGet, A: reg(key)})
 			} else {
 				attr := reg(c.Globals.Index(arg.Tokens[indexKey].Text))
@@ -551,15 +551,15 @@ func (c *compiler) compile(tok *token) []instruction {
 					continue
 				}
 				res = append(res, c.compile(arg.Tokens[indexItem])...)
-				res = append(res, instruction{Code: codeLocalSet, A: slot(i, "item")})
+				res = append(res, instruction{Code: codeLocalSet, A: slot(i, "item"), B: 1})
 				if arg.Symbol == "index" {
 					res = append(res, c.compile(arg.Tokens[indexKey])...)
-					res = append(res, instruction{Code: codeLocalSet, A: slot(i, "key")})
+					res = append(res, instruction{Code: codeLocalSet, A: slot(i, "key"), B: 1})
 				}
 			}
 			res = append(res, c.compile(tok.Tokens[1])...)
 			for i := len(targets) - 1; i >= 0; i-- {
-				res = append(res, instruction{Code: codeLocalSet, A: slot(i, "val")})
+				res = append(res, instruction{Code: codeLocalSet, A: slot(i, "val"), B: 1})
 			}
 			for i, arg := range targets {
 				if arg.Text == "_" {
